@@ -157,6 +157,10 @@ fn first_use_key(op: &Op) -> String {
             ty,
             ..
         } => format!("wso/{}", ty.name()),
+        Op::WNanCustom {
+            ty,
+            ..
+        } => format!("wnc/{}", ty.name()),
     }
 }
 
